@@ -442,4 +442,81 @@ theorem reconstruct_sim (h : ReconPre H ps pos O) (sr : Node) :
 
 end
 
+/-! ## `reconstruct_pages` -/
+
+section
+variable {ps : PageSet Node} {pos : Pos} {O : List (Key × VH)}
+
+/-- a reconstructed output page as `reconstruct_pages` yields it -/
+def recOf (o : PageOut Node) : Reconstructed Node :=
+  ⟨o.pageId, o.page, o.diff, countLeaves H o.page, o.childrenLeaves⟩
+
+theorem reconMap_ok : ∀ (pages : List (PageOut Node)), (∀ o ∈ pages, o.isReconstructed = true) →
+    reconMap H pages = .ok (pages.map (recOf H))
+  | [], _ => rfl
+  | o :: rest, h => by
+    have ho := h o (by simp)
+    cases o with
+    | updated => simp [PageOut.isReconstructed] at ho
+    | reconstructed pid pg cl d =>
+      simp only [reconMap, List.map_cons]
+      rw [reconMap_ok rest (fun x hx => h x (List.mem_cons_of_mem _ hx))]
+      rfl
+
+/-- **`reconstruct_pages` is correct** (the mirror of `page_walker::reconstruct_pages`): for the sorted leaves below an elided
+child — at least two, fewer than `PAGE_ELISION_THRESHOLD`, the child page not yet in the page set, the parent page holding the
+node of the sub-trie at the position — no panic site is reached; the first elided page is inserted into the page set; the pages
+yielded are exactly the pages at / below the position whose prefix holds an internal node of the trie of the leaves, each once;
+each has 126 slots, every slot whose parent is an internal node holds `nodeAt` of the leaves below it, its `page_leaves_counter`
+is the number of leaves of the trie that lie in the page, and its diff names every slot that differs from the pool page (the
+first page: from the pool page with the two top slots cleared) it was built on. -/
+theorem reconstructPages_correct (h : ReconPre H ps pos O) (page : Page Node)
+    (hpage : page.getNode H pos.nodeIndex = .ok (specNode H O pos.path)) :
+    ∃ l Lc, reconstructPages H page (specPage pos.path) pos ps O = .ok (psR H ps (sextetsOf pos.path), some l) ∧
+      l.map (·.pageId) = Lc.map sextetsOf ∧ BlockIds O pos.path Lc ∧
+      ∀ r ∈ l, ∃ c ∈ Lc, r.pageId = sextetsOf c ∧ r.page.nodes.length = 126 ∧
+        (∀ q, q ≠ [] → q.length ≤ 256 → specPage q = r.pageId → Mean O q →
+          r.page.nodes.getD (specIndex q) H.term = specNode H O q) ∧
+        r.pageLeaves = pageCount O c ∧
+        ∃ base, BaseOf (psR H ps (sextetsOf pos.path)) r.pageId base ∧ DiffNames H r.page.nodes base r.diff := by
+  obtain ⟨w3, hrun, hsim, hrec⟩ := reconstruct_sim H h (specNode H O pos.path)
+  have hf := twRecon_facts H h.sound h.keys (rcfg H ps pos) (rstore H ps pos (specNode H O pos.path)) pos.path h.p6 h.ne
+    (by rw [h.under]; exact h.two) h.ple (rcfg_top H h) rfl
+  obtain ⟨Lc, hLc, hB⟩ := hf.ids
+  have hkinds : ∀ o ∈ w3.outputPages, o.isReconstructed = true := by
+    intro o ho
+    have := hsim.recon.kinds o ho
+    rw [hrec] at this; exact this
+  refine ⟨w3.outputPages.map (recOf H), Lc, ?_, ?_, hB, ?_⟩
+  · unfold reconstructPages
+    rw [hpage]
+    simp only
+    rw [hrun]
+    simp only [ne_eq, not_true_eq_false, if_false]
+    rw [reconMap_ok H _ hkinds]
+  · rw [List.map_map]
+    have : (fun r : Reconstructed Node => r.pageId) ∘ recOf H = PageOut.pageId := rfl
+    rw [this, hsim.recon.outIds hrec, hLc]
+  · intro r hr
+    obtain ⟨o, ho, rfl⟩ := List.mem_map.mp hr
+    obtain ⟨st, hmem, hlen, hm, hdiff⟩ := hsim.outs o ho
+    have hidm : o.pageId ∈ Lc.map sextetsOf := by
+      rw [← hLc]
+      exact List.mem_map_of_mem (f := fun e : PageId × Store Node => e.1) hmem
+    obtain ⟨c, hc, hce⟩ := List.mem_map.mp hidm
+    obtain ⟨_, h6, hcl, h2⟩ := (hB.2 c).mp hc
+    have hlogok := hf.logok _ hmem
+    refine ⟨c, hc, hce.symm, hlen, ?_, ?_, hdiff⟩
+    · intro q hq hql hqp hmean
+      show o.page.nodes.getD (specIndex q) H.term = _
+      rw [hm q hq hql hqp]
+      exact hlogok q hq hqp hql trivial hmean
+    · show countLeaves H o.page = _
+      apply countLeaves_of_logOK H h.sound h.keys o.page c st h6 hcl h2
+      · intro q hq hql hqp
+        exact hm q hq hql (by rw [hqp, hce])
+      · rw [hce]; exact hlogok
+
+end
+
 end Nomt.Walker
